@@ -39,7 +39,7 @@ pub fn sizes(ctx: &Ctx, layer: &str) -> Sizes {
     }
     match layer {
         "miri" => Sizes { g1: if ctx.thorough { 4000 } else { 160 }, g2_cap: 2, g3: vec![127, 128], g3p: vec![127, 128, 129] },
-        "vg" => Sizes { g1: 1500, g2_cap: 8, g3: vec![127, 128, 16_383, 16_384], g3p: vec![127, 128, 129, 16_384] },
+        "vg" => Sizes { g1: if ctx.thorough { 60_000 } else { 8000 }, g2_cap: if ctx.thorough { 64 } else { 16 }, g3: vec![127, 128, 129, 16_383, 16_384, 16_385, 2_097_152], g3p: vec![127, 128, 129, 16_384] },
         "asan" => Sizes { g1: if ctx.thorough { 400_000 } else { 20_000 }, g2_cap: 64, g3, g3p },
         _ => Sizes { g1: if ctx.thorough { 15_000_000 } else { 300_000 }, g2_cap: if ctx.thorough { u32::MAX } else { 4096 }, g3, g3p },
     }
